@@ -248,6 +248,9 @@ func (g *FnGen) hgetRaw(st *State, key string) Term {
 	if strings.HasPrefix(key, "Mcard:") && g.symHeap == "" {
 		g.mapWF(&State{heap: map[string]Term{}}, key)
 	}
+	if strings.HasPrefix(key, "F:") && g.symHeap == "" {
+		g.heapClosed(&State{heap: map[string]Term{}}, key)
+	}
 	g.curTag = saved
 	return t
 }
@@ -807,6 +810,9 @@ func (g *FnGen) block(b *ssa.BasicBlock, entry *State) {
 		for _, k := range mk {
 			if strings.HasPrefix(k, "Mcard:") {
 				g.mapWF(st, k)
+			}
+			if strings.HasPrefix(k, "F:") {
+				g.heapClosed(st, k)
 			}
 		}
 		for _, in := range b.Instrs {
@@ -1590,6 +1596,22 @@ func (g *FnGen) checkPost(st *State, reach string, rs []SVal, pos token.Pos, kin
 }
 
 func (g *FnGen) frameObligation(c *Clause, st *State, reach string, pos token.Pos) {
+	if strings.HasPrefix(c.Key, "@") {
+		// only the backing array of the named slice parameter (as it was on entry) may change
+		pv, ok := g.params[c.Key[1:]]
+		if !ok || pv.T == nil {
+			return
+		}
+		sl, ok := types.Unalias(pv.T).Underlying().(*types.Slice)
+		if !ok {
+			return
+		}
+		key, _ := g.w.sliceKey(sl.Elem())
+		a0 := g.hget(g.entry, "alloc")
+		goal := fmt.Sprintf("(forall ((r Int)) (=> (and (<= r %s) (not (= r (arr_%s %s)))) (= (select %s r) (select %s r))))", a0.S, pv.Sort, pv.S, g.hget(st, key).S, g.hget(g.entry, key).S)
+		g.oblige("frame", key, []string{"C07"}, reach, goal, c.Src, pos)
+		return
+	}
 	keys := g.w.expandKey(c.Key)
 	for _, key := range keys {
 		if srt, ok := g.w.heapSort[key]; !ok || !strings.HasPrefix(srt, "(Array Int ") {
@@ -1682,4 +1704,22 @@ func (g *FnGen) mapWF(st *State, cardKey string) {
 	}
 	g.emit(fmt.Sprintf("(assert (forall ((m Int)) (! (and (>= (select %s m) 0) (=> (= (select %s m) 0) (forall ((k %s)) (not (select (select %s m) k)))) (=> (> (select %s m) 0) (exists ((k %s)) (select (select %s m) k)))) :pattern ((select %s m)))))",
 		c, c, inner, d, c, inner, d, c))
+}
+
+// heapClosed: references stored in a field are allocated (the heap is closed under dereference). Asserted for the
+// entry version of a field array and for every havoced version, with the allocation counter of that state.
+func (g *FnGen) heapClosed(st *State, key string) {
+	ft, ok := g.w.keyTypes[key]
+	if !ok || g.symHeap != "" {
+		return
+	}
+	h := g.hget(st, key).S
+	a := g.allocTerm(st).S
+	switch u := types.Unalias(ft).Underlying().(type) {
+	case *types.Pointer, *types.Map:
+		g.emit(fmt.Sprintf("(assert (forall ((r Int)) (! (and (<= 0 (select %s r)) (<= (select %s r) %s)) :pattern ((select %s r)))))", h, h, a, h))
+	case *types.Slice:
+		ss := g.w.sortOf(u)
+		g.emit(fmt.Sprintf("(assert (forall ((r Int)) (! (and (<= 0 (arr_%s (select %s r))) (<= (arr_%s (select %s r)) %s) (<= 0 (len_%s (select %s r))) (<= 0 (off_%s (select %s r)))) :pattern ((select %s r)))))", ss, h, ss, h, a, ss, h, ss, h, h))
+	}
 }
